@@ -74,6 +74,16 @@ def gen_behav(rng, profile):
         # surplus sort of manage_processes would keep dict order — the live cross-check showed a real kernel never ties)
         b["spawn_ms"] = rng.choice([20, 50, 150, 400]) if rng.random() < profile.get("slow_spawn", 0.15) else rng.choice([1, 1, 2, 5])
         out.append(b)
+    # a worker the daemon may not signal (it runs under another uid: os.kill raises EPERM, psutil.AccessDenied), or
+    # one whose children it may not signal: rare by default (profile knob `eperm` = share of the scenarios that have one)
+    if rng.random() < profile.get("eperm", 0.04):
+        for b in rng.sample(out, rng.choice([1, 1, len(out)])):
+            if b.get("kids") and rng.random() < 0.5:
+                b["kid_eperm"] = True
+                if rng.random() < 0.3:
+                    b["eperm"] = True
+            else:
+                b["eperm"] = True
     return out
 
 
